@@ -36,6 +36,7 @@ type Contract struct {
 	Decreases  map[int]Clause
 	KeyedInv   map[string][]Clause // invariants keyed by loop source text ("range x.y", "for i < n")
 	KeyedDec   map[string]Clause
+	KeyOrder   []string            // loop keys in order of first appearance in the contract
 	Asserts    map[string][]Clause // "call os.Symlink#0" -> assertions checked right before that call
 	Modifies   []SExpr
 	ModAll     bool
@@ -458,6 +459,15 @@ func parseClauses(c *Contract, d *directive) error {
 						c.KeyedDec = map[string]Clause{}
 					}
 					clause.Key = key
+					seenKey := false
+					for _, k := range c.KeyOrder {
+						if k == key {
+							seenKey = true
+						}
+					}
+					if !seenKey {
+						c.KeyOrder = append(c.KeyOrder, key)
+					}
 					if m[1] == "invariant" {
 						c.KeyedInv[key] = append(c.KeyedInv[key], clause)
 					} else {
